@@ -636,29 +636,62 @@ def _emit(tree):
     # ---- run
     order, alpha = _run(_find_method(tree, "BaseMCMCRunner", "run"))
 
-    out = [PRELUDE]
-    out.append(_def("gammaShape", ["d", "nu"], shape.lean, "TPCNRunner._propose: `shape=` of the gamma draw"))
-    out.append(_def("gammaScale", ["nu", "dot"], scale.lean, "TPCNRunner._propose: `scale=` of the gamma draw"))
-    out.append(_def("sFromGamma", ["g"], sval.lean, "TPCNRunner._propose: the scale variable s as a function of the gamma draw g"))
-    out.append(_def("tpcnMuCoef", ["sigma", "s"], co["mu"].lean, "tpCN proposal: coefficient of mu"))
-    out.append(_def("tpcnDiffCoef", ["sigma", "s"], co["diffu"].lean, "tpCN proposal: coefficient of (u - mu)"))
-    out.append(_def("tpcnNoiseScale", ["sigma", "s"], co["Lz"].lean, "tpCN proposal: scalar multiplying chol @ randn(n_dim)"))
-    out.append(_def("tpcnLogFactor", ["d", "nu", "dot", "dotp"], factor.lean,
+    return dict(gammaShape=shape.lean, gammaScale=scale.lean, sFromGamma=sval.lean, tpcnMuCoef=co["mu"].lean,
+                tpcnDiffCoef=co["diffu"].lean, tpcnNoiseScale=co["Lz"].lean, tpcnLogFactor=factor.lean,
+                rwmUCoef=rco["u"].lean, rwmNoiseScale=rco["Lz"].lean, rwmLogFactor=rfactor.lean, acceptProb=alpha.lean,
+                tpcnAdapt=tad.lean, rwmAdapt=rad.lean, stepOrder=order, tpcnProposeShape=tshape, rwmProposeShape=rshape)
+
+
+# The reviewed expressions of the pinned tree.  Used ONLY when the current source cannot be parsed (status `unavailable`):
+# the theorems are then checked about these reference expressions and the dynamic twin alone ties the code to the model
+# (DESIGN §3.1); without this a stale Gen file from an earlier run would be what the theorems see.
+_LOGT = "(Sc.mul (Sc.mul (Sc.neg (Sc.lit 5 1)) (Sc.add d nu)) (ScT.log (Sc.add (Sc.ofNat 1) (Sc.div {} nu))))"
+_RAW = "(Sc.add sigma (Sc.mul (Sc.div (Sc.ofNat 1) (Sc.add iter (Sc.ofNat 1))) (Sc.sub acc (Sc.lit 234 3))))"
+REFERENCE = dict(
+    gammaShape="(Sc.div (Sc.add d nu) (Sc.ofNat 2))",
+    gammaScale="(Sc.div (Sc.ofNat 2) (Sc.add nu dot))",
+    sFromGamma="(Sc.div (Sc.ofNat 1) g)",
+    tpcnMuCoef="(Sc.ofNat 1)",
+    tpcnDiffCoef="(ScT.sqrt (Sc.sub (Sc.ofNat 1) (Sc.mul sigma sigma)))",
+    tpcnNoiseScale="(Sc.mul sigma (ScT.sqrt s))",
+    tpcnLogFactor=f"(Sc.add (Sc.neg {_LOGT.format('dotp')}) {_LOGT.format('dot')})",
+    rwmUCoef="(Sc.ofNat 1)",
+    rwmNoiseScale="sigma",
+    rwmLogFactor="(Sc.ofNat 0)",
+    acceptProb="(nanToZero (npMinimum (Sc.ofNat 1) (ScT.exp (Sc.add (Sc.mul beta (Sc.sub lp l)) factor))))",
+    tpcnAdapt=f"(Sc.min (Sc.max {_RAW} (Sc.ofNat 0)) (Sc.min sigma0 (Sc.lit 99 2)))",
+    rwmAdapt=_RAW,
+    stepOrder=["iter", "propose", "transform", "evaluate", "factor", "alpha", "uniform", "accept", "update", "adapt",
+               "progress", "converge"],
+    tpcnProposeShape=["gamma", "loop", "draw", "fold", "checkReturn"],
+    rwmProposeShape=["loop", "draw", "fold", "checkReturn"],
+)
+
+
+def _render(v, note=""):
+    out = [PRELUDE + (f"\n-- {note}\n" if note else "")]
+    out.append(_def("gammaShape", ["d", "nu"], v["gammaShape"], "TPCNRunner._propose: `shape=` of the gamma draw"))
+    out.append(_def("gammaScale", ["nu", "dot"], v["gammaScale"], "TPCNRunner._propose: `scale=` of the gamma draw"))
+    out.append(_def("sFromGamma", ["g"], v["sFromGamma"], "TPCNRunner._propose: the scale variable s as a function of the gamma draw g"))
+    out.append(_def("tpcnMuCoef", ["sigma", "s"], v["tpcnMuCoef"], "tpCN proposal: coefficient of mu"))
+    out.append(_def("tpcnDiffCoef", ["sigma", "s"], v["tpcnDiffCoef"], "tpCN proposal: coefficient of (u - mu)"))
+    out.append(_def("tpcnNoiseScale", ["sigma", "s"], v["tpcnNoiseScale"], "tpCN proposal: scalar multiplying chol @ randn(n_dim)"))
+    out.append(_def("tpcnLogFactor", ["d", "nu", "dot", "dotp"], v["tpcnLogFactor"],
                     "TPCNRunner._compute_acceptance_factor (dot: current state, dotp: proposed state)"))
-    out.append(_def("rwmUCoef", ["sigma"], rco["u"].lean, "RWM proposal: coefficient of u"))
-    out.append(_def("rwmNoiseScale", ["sigma"], rco["Lz"].lean, "RWM proposal: scalar multiplying chol @ randn(n_dim)"))
-    out.append(_def("rwmLogFactor", [], rfactor.lean, "RWMRunner._compute_acceptance_factor"))
-    out.append(_def("acceptProb", ["beta", "l", "lp", "factor"], alpha.lean,
+    out.append(_def("rwmUCoef", ["sigma"], v["rwmUCoef"], "RWM proposal: coefficient of u"))
+    out.append(_def("rwmNoiseScale", ["sigma"], v["rwmNoiseScale"], "RWM proposal: scalar multiplying chol @ randn(n_dim)"))
+    out.append(_def("rwmLogFactor", [], v["rwmLogFactor"], "RWMRunner._compute_acceptance_factor"))
+    out.append(_def("acceptProb", ["beta", "l", "lp", "factor"], v["acceptProb"],
                     "BaseMCMCRunner.run: acceptance probability (l: current logL, lp: proposed logL)"))
     out.append("/-- BaseMCMCRunner.run: `mask_accept = u_rand < alpha` -/\ndef acceptDecision (r alpha : α) : Bool :=\n  Sc.lt r alpha\n")
-    out.append(_def("tpcnAdapt", ["sigma", "iter", "acc", "sigma0"], tad.lean, "TPCNRunner._adapt_sigma: new sigma of the cluster"))
-    out.append(_def("rwmAdapt", ["sigma", "iter", "acc", "sigma0"], rad.lean, "RWMRunner._adapt_sigma: new sigma of the cluster"))
+    out.append(_def("tpcnAdapt", ["sigma", "iter", "acc", "sigma0"], v["tpcnAdapt"], "TPCNRunner._adapt_sigma: new sigma of the cluster"))
+    out.append(_def("rwmAdapt", ["sigma", "iter", "acc", "sigma0"], v["rwmAdapt"], "RWMRunner._adapt_sigma: new sigma of the cluster"))
     out.append("/-- statement order of one step of `BaseMCMCRunner.run` -/\ndef stepOrder : List Stage :=\n  ["
-               + ", ".join("." + s for s in order) + "]\n")
+               + ", ".join("." + s for s in v["stepOrder"]) + "]\n")
     out.append("/-- statement shape of `TPCNRunner._propose` -/\ndef tpcnProposeShape : List PStage :=\n  ["
-               + ", ".join("." + s for s in tshape) + "]\n")
+               + ", ".join("." + s for s in v["tpcnProposeShape"]) + "]\n")
     out.append("/-- statement shape of `RWMRunner._propose` -/\ndef rwmProposeShape : List PStage :=\n  ["
-               + ", ".join("." + s for s in rshape) + "]\n")
+               + ", ".join("." + s for s in v["rwmProposeShape"]) + "]\n")
     out.append("end Gen.Kernel\n")
     return "\n".join(out)
 
@@ -669,11 +702,12 @@ def generate():
     try:
         with open(path) as fh:
             tree = ast.parse(fh.read(), filename=path)
-        text = _emit(tree)
-    except Unavailable as e:
-        return ("G4-kernel", "unavailable", str(e))
-    except (OSError, SyntaxError) as e:
-        return ("G4-kernel", "unavailable", f"cannot read {path}: {e}")
+        text = _render(_emit(tree))
+    except (Unavailable, OSError, SyntaxError) as e:
+        why = str(e) if isinstance(e, Unavailable) else f"cannot read {path}: {e}"
+        common.write_if_changed(OUT, _render(REFERENCE, "FALLBACK: the translator could not parse the current source ("
+                                             + why.replace("\n", " ")[:200] + "); reference expressions of the pinned tree"))
+        return ("G4-kernel", "unavailable", why)
     changed = common.write_if_changed(OUT, text)
     return ("G4-kernel", "ok", f"{os.path.relpath(OUT, common.VERIF)} {'rewritten' if changed else 'unchanged'}")
 
